@@ -2,7 +2,8 @@
 # modes: plain (hook mode), asan (hook mode + AddressSanitizer), full (compiler-instrumented plain accesses)
 MODE ?= plain
 REPO ?= /repo
-B := /verif/build/$(MODE)
+BUILDROOT ?= /verif/build
+B := $(BUILDROOT)/$(MODE)
 CC := clang-14
 CXX := clang++-14
 
